@@ -132,7 +132,7 @@ func (p *ptrExec) Exec(line string) (obs, viol string) {
 	}
 	obs, viol = p.Session.Exec(line)
 	switch t[0] {
-	case "new", "ins", "del", "get", "iter", "clone", "root", "roots", "load":
+	case "new", "ins", "del", "get", "iter", "clone", "root", "roots", "load", "cur", "cmin", "cmax", "cfwd", "cbwd", "cceil":
 		switch {
 		case obs == "bad-slot" || obs == "bad-op":
 		case strings.HasPrefix(obs, "err"):
@@ -234,6 +234,29 @@ func (p *ptrExec) pgraph() string {
 		}
 		sort.Slice(cents, func(i, j int) bool { return cents[i].name < cents[j].name })
 	}
+	// cursors: each has a tree of its own (the clone made by Cursor()) and a path of node objects
+	cids := make([]int, 0, len(s.curs))
+	for c := range s.curs {
+		cids = append(cids, c)
+	}
+	sort.Ints(cids)
+	type curDump struct {
+		m    *mast.Mast
+		root mast.VerifLink
+		path []mast.VerifPathEntry
+	}
+	curDumps := map[int]curDump{}
+	for _, c := range cids {
+		cm, path := mast.VerifCursor(s.curs[c].c)
+		r, nodes := mast.VerifDump(cm)
+		for _, n := range nodes {
+			d.nodes[n.ID] = n
+		}
+		for _, pe := range path {
+			d.nodes[pe.Node.ID] = pe.Node
+		}
+		curDumps[c] = curDump{cm, r, path}
+	}
 	var parts []string
 	for _, sl := range slots {
 		m := s.Trees[sl]
@@ -241,6 +264,17 @@ func (p *ptrExec) pgraph() string {
 		r := d.link(roots[sl])
 		ga, sb := mast.VerifThresholds(m)
 		parts = append(parts, fmt.Sprintf("T%d:%d,%d,%d,%d,%s{%s}", sl, m.Size(), m.Height(), ga, sb, r, strings.Join(d.out[before:], ";")))
+	}
+	for _, c := range cids {
+		cd := curDumps[c]
+		before := len(d.out)
+		r := d.link(cd.root)
+		var ps []string
+		for _, pe := range cd.path {
+			ps = append(ps, fmt.Sprintf("%s:%d", d.link(mast.VerifLink{Kind: "ptr", ID: pe.Node.ID}), pe.Index))
+		}
+		ga, sb := mast.VerifThresholds(cd.m)
+		parts = append(parts, fmt.Sprintf("K%d:%d,%d,%d,%d,%s{%s}[%s]", c, cd.m.Size(), cd.m.Height(), ga, sb, r, strings.Join(d.out[before:], ";"), strings.Join(ps, ",")))
 	}
 	var cparts []string
 	for _, c := range cents {
@@ -275,6 +309,7 @@ func genPtrCase(r *rand.Rand, cfg Cfg) Case {
 	live := map[int]map[uint64]uint64{0: {}}
 	rootMaps := map[int]map[uint64]uint64{}
 	nroot := 0
+	ncur := 0
 	n := 10 + r.Intn(70)
 	for i := 0; i < n; i++ {
 		s := pick(r, slots)
@@ -315,6 +350,29 @@ func genPtrCase(r *rand.Rand, cfg Cfg) Case {
 			if r.Intn(2) == 0 {
 				ops = append(ops, fmt.Sprintf("stat %d", s)) // IsDirty right after a delete (C13)
 			}
+		case x < 68 && ncur > 0 && r.Intn(2) == 0:
+			// a move of an open cursor (the tree it was opened on may have been modified since:
+			// the cursor works on its own clone)
+			// (Min / Max / Ceil in the middle of a walk are relative to the position: placements
+			// only follow Cursor())
+			c := r.Intn(ncur)
+			if r.Intn(2) == 0 {
+				ops = append(ops, fmt.Sprintf("cfwd %d", c))
+			} else {
+				ops = append(ops, fmt.Sprintf("cbwd %d", c))
+			}
+		case x < 66 && ncur < 3 && r.Intn(3) == 0:
+			// Cursor() and a placement
+			ops = append(ops, fmt.Sprintf("cur %d %d", s, ncur), "pgraph", "ptick")
+			switch r.Intn(3) {
+			case 0:
+				ops = append(ops, fmt.Sprintf("cmin %d", ncur))
+			case 1:
+				ops = append(ops, fmt.Sprintf("cmax %d", ncur))
+			default:
+				ops = append(ops, fmt.Sprintf("cceil %d %d", ncur, pick(r, uni)))
+			}
+			ncur++
 		case x < 70:
 			ops = append(ops, fmt.Sprintf("get %d %d", s, pick(r, uni)))
 		case x < 73:
@@ -405,6 +463,19 @@ func genPtrCase(r *rand.Rand, cfg Cfg) Case {
 			op = pick(r, []string{fmt.Sprintf("get %d %d", s, pick(r, uni)), fmt.Sprintf("iter %d", s)})
 		default:
 			op = pick(r, []string{fmt.Sprintf("clone %d %d", s, r.Intn(5)), fmt.Sprintf("root %d %d", s, nroot)})
+		}
+		if r.Intn(4) == 0 {
+			// a cursor opened on that tree, placed, and a move whose k-th load fails; the same move
+			// once more (a failed Forward / Backward leaves the cursor where it was)
+			c := ncur
+			ops = append(ops, fmt.Sprintf("cur %d %d", s, c), "pgraph", pick(r, []string{fmt.Sprintf("cmin %d", c), fmt.Sprintf("cmax %d", c), fmt.Sprintf("cceil %d %d", c, pick(r, uni))}), "pgraph")
+			mv := pick(r, []string{"cfwd", "cbwd"})
+			for j := 0; j < r.Intn(4); j++ {
+				ops = append(ops, fmt.Sprintf("%s %d", mv, c), "pgraph")
+			}
+			mv = pick(r, []string{"cfwd", "cbwd"})
+			ops = append(ops, fmt.Sprintf("pfailr %d %s %d", r.Intn(1000), mv, c), "pgraph", "ptick", fmt.Sprintf("%s %d", mv, c), "pgraph", "ptick")
+			return Case{cfg, ops}
 		}
 		ops = append(ops, fmt.Sprintf("pfailr %d %s", r.Intn(1000), op), "pgraph", "ptick")
 	}
